@@ -97,12 +97,15 @@ structure ExactlyOneReply {σ} (s s' : DevState σ) (src : Bytes) (inv : Nat) (o
            s'.sap.servers = s.sap.servers ++ [Txn.mk ⟨peerOf (.localStation src), inv⟩ b])
   clients : s'.sap.clients = s.sap.clients
 
+theorem spoofed_noSadr (n : Option Nat) (h : Npci.Npci) (hs : h.sadr = none) : spoofed n h = false := by
+  simp [spoofed, hs]
+
 theorem reply_exists {σ} (cfg : DevCfg σ) (hw : cfg.base.window < 256) (s : DevState σ)
-    (src f : Bytes) (inv : Nat)
+    (src : Bytes) (bcast : Bool) (f : Bytes) (inv : Nat)
     (hwf : wellFramed f = some inv)
     (hdcc : listening s.sap.dcc f)
     (hfree : findTxn ⟨peerOf (.localStation src), inv⟩ s.sap.servers = none) :
-    ExactlyOneReply s (recv cfg s src f).1 src inv (recv cfg s src f).2 := by
+    ExactlyOneReply s (recv cfg s src bcast f).1 src inv (recv cfg s src bcast f).2 := by
   match f, hwf with
   | v :: ctl :: a0 :: a1 :: i :: svc :: body, hwf =>
     simp only [wellFramed] at hwf
@@ -118,9 +121,9 @@ theorem reply_exists {σ} (cfg : DevCfg σ) (hw : cfg.base.window < 256) (s : De
         ⟨_, decodeApdu_confirmed a0 a1 i svc body ht hs, rfl, rfl, rfl, rfl⟩
       unfold recv
       rw [hnp]
-      simp only [learnSadr, processLocally, Bool.not_true, Bool.false_eq_true, if_false, hap]
+      simp only [spoofed, learnSadr, processLocally, Bool.not_true, Bool.false_eq_true, if_false, hap]
       generalize ofApci hd body = a at *
-      have hs0 : ({ sap := s.sap, routes := s.routes, app := s.app } : DevState σ) = s := by cases s; rfl
+      have hs0 : ({ s with routes := s.routes } : DevState σ) = s := by cases s; rfl
       rw [hs0]
       have hgate : dccInbound s.sap.dcc a = true := by
         unfold dccInbound
@@ -135,7 +138,8 @@ theorem reply_exists {σ} (cfg : DevCfg σ) (hw : cfg.base.window < 256) (s : De
       obtain ⟨⟨x, hx, houts, hcase⟩, hroutes, hclients⟩ := hdel
       dsimp only at houts hroutes hclients hcase
       rw [houts]
-      obtain ⟨fr, hdr, hemit, hdst, hhdr, hinv, hty, hsegeq⟩ := emit_reply (deliver cfg s (peerOf (.localStation src)) a).1.routes src hx
+      obtain ⟨fr, hdr, hemit, hdst, hhdr, hinv, hty, hsegeq⟩ := emit_reply (deliver cfg s (peerOf (.localStation src)) a).1.net
+        (deliver cfg s (peerOf (.localStation src)) a).1.routes src hx
       refine ⟨⟨fr, hdr, ?_, hdst, hhdr, hinv, ?_, ?_, ?_⟩, hclients⟩
       · simp [emitAll, emit, hemit]
       · rw [hty]; rcases hx.shape with h | h | h | h | h <;> simp [h.1]
@@ -160,16 +164,16 @@ theorem tsm_pos {σ} {cfg : DevCfg σ} (h : cfg.base.TimeoutsPos) : cfg.tsm.Time
 /-- a freshly built device satisfies the invariant -/
 theorem good_init {σ} (app : σ) : Good ({ app := app } : DevState σ) := ⟨Inv.init, rfl⟩
 
-/-- **garbage_leaves_nothing.**  ANY datagrams from ANY stations, then quiescence:
-    no transaction, no timer. -/
+/-- **garbage_leaves_nothing.**  ANY datagrams (unicast or broadcast) from ANY stations,
+    then quiescence: no transaction, no timer (the Network-Number-Is answer task included). -/
 theorem garbage_leaves_nothing {σ} (cfg : DevCfg σ) (hpos : cfg.base.TimeoutsPos)
-    (s0 : DevState σ) (hg : Good s0) (garbage : List (Bytes × Bytes)) :
+    (s0 : DevState σ) (hg : Good s0) (garbage : List Dgram) :
     let s := (quiesce cfg (recvAll cfg s0 garbage).1).1
-    s.sap.servers = [] ∧ s.sap.clients = [] ∧ armed s.sap = [] ∧ Good s := by
+    s.sap.servers = [] ∧ s.sap.clients = [] ∧ armed s.sap = [] ∧ s.nniPending = false ∧ Good s := by
   intro s
   have h1 := recvAll_good (tsm_pos hpos) garbage hg
-  obtain ⟨h2, h3, _, _⟩ := quiesce_done (tsm_pos hpos) h1
-  refine ⟨h3, h2.2, ?_, h2⟩
+  obtain ⟨h2, h3, _, _, h5⟩ := quiesce_done (tsm_pos hpos) h1
+  refine ⟨h3, h2.2, ?_, h5, h2⟩
   show ((quiesce cfg (recvAll cfg s0 garbage).1).1.sap.clients ++
         (quiesce cfg (recvAll cfg s0 garbage).1).1.sap.servers).filterMap _ = []
   rw [h3, h2.2]
@@ -184,7 +188,7 @@ theorem quiesce_complete {σ} (cfg : DevCfg σ) (hpos : cfg.base.TimeoutsPos) (s
 /-! ## isolation -/
 
 /-- `recvAll` is a fold: a queue processed in two parts is the queue processed at once -/
-theorem recvAll_append {σ} (cfg : DevCfg σ) : ∀ (xs ys : List (Bytes × Bytes)) (s : DevState σ),
+theorem recvAll_append {σ} (cfg : DevCfg σ) : ∀ (xs ys : List Dgram) (s : DevState σ),
     recvAll cfg s (xs ++ ys) =
       ((recvAll cfg (recvAll cfg s xs).1 ys).1,
        (recvAll cfg s xs).2 ++ (recvAll cfg (recvAll cfg s xs).1 ys).2) := by
@@ -193,7 +197,6 @@ theorem recvAll_append {σ} (cfg : DevCfg σ) : ∀ (xs ys : List (Bytes × Byte
   | nil => intro ys s; simp [recvAll]
   | cons x xs ih =>
     intro ys s
-    obtain ⟨src, f⟩ := x
     simp only [List.cons_append, recvAll]
     rw [ih]
     simp [List.append_assoc]
@@ -204,41 +207,84 @@ def sadrOf (f : Bytes) : Option Npci.Addr :=
   | .ok (h, _) => h.sadr
   | .error _ => none
 
-theorem dropped_is_noop {σ} (cfg : DevCfg σ) (s : DevState σ) (src f : Bytes)
-    (h : fate f ≠ .delivered) :
-    (recv cfg s src f).2 = [] ∧ (recv cfg s src f).1.sap = s.sap ∧ (recv cfg s src f).1.app = s.app := by
+/-- **dropped_is_noop.**  A datagram that does not reach the state machines and is not a
+    network message the service element handles: no output, and only the route table can differ
+    (a route is learned from an SNET before the rest of the datagram is looked at). -/
+theorem dropped_is_noop {σ} (cfg : DevCfg σ) (s : DevState σ) (src : Bytes) (bcast : Bool) (f : Bytes)
+    (h : fate s.net f ≠ .delivered) (h2 : fate s.net f ≠ .netMsg) :
+    ∃ routes, recv cfg s src bcast f = ({ s with routes := routes }, []) := by
+  unfold fate at h h2
+  unfold recv
+  have hs0 : ({ s with routes := s.routes } : DevState σ) = s := by cases s; rfl
+  cases hn : Npci.decodeNpci f with
+  | error e => exact ⟨s.routes, by rw [hs0]⟩
+  | ok r =>
+    obtain ⟨hd, rest⟩ := r
+    simp only [hn] at h h2
+    dsimp only
+    by_cases hsp : spoofed s.net hd = true
+    · simp only [hsp, if_true]; exact ⟨s.routes, by rw [hs0]⟩
+    · simp only [hsp, if_false] at h h2 ⊢
+      by_cases hp : (!processLocally hd) = true
+      · simp only [hp, if_true]; exact ⟨_, rfl⟩
+      · simp only [hp, if_false] at h h2 ⊢
+        cases hm : hd.netMessage with
+        | some c =>
+          simp only [hm] at h h2 ⊢
+          cases hk : Npci.kindOfCode c with
+          | none => exact ⟨_, rfl⟩
+          | some kd =>
+            simp only [hk] at h2
+            dsimp only
+            cases hb : Npci.decodeBody kd rest with
+            | error e => exact ⟨_, rfl⟩
+            | ok m => simp only [hb] at h2; exact absurd rfl h2
+        | none =>
+          simp only [hm] at h ⊢
+          cases ha : decodeApdu rest with
+          | error e => exact ⟨_, rfl⟩
+          | ok r2 =>
+            simp only [ha] at h
+            exact absurd rfl h
+
+/-- a network message the service element handles: no application involvement either -/
+theorem netmsg_leaves_transactions {σ} (cfg : DevCfg σ) (s : DevState σ) (src : Bytes) (bcast : Bool)
+    (f : Bytes) (h : fate s.net f = .netMsg) :
+    (recv cfg s src bcast f).1.sap = s.sap ∧ (recv cfg s src bcast f).1.app = s.app := by
   unfold fate at h
   unfold recv
   cases hn : Npci.decodeNpci f with
-  | error e => exact ⟨rfl, rfl, rfl⟩
+  | error e => exact ⟨rfl, rfl⟩
   | ok r =>
     obtain ⟨hd, rest⟩ := r
     simp only [hn] at h
     dsimp only
-    by_cases hp : (!processLocally hd) = true
-    · simp [hp]
-    · simp only [hp, if_false] at h ⊢
-      cases hm : hd.netMessage with
-      | some c =>
-        simp only [hm] at h ⊢
-        cases hk : Npci.kindOfCode c with
-        | none => exact ⟨rfl, rfl, rfl⟩
-        | some kd =>
-          dsimp only
-          cases hb : Npci.decodeBody kd rest with
-          | error e => exact ⟨rfl, rfl, rfl⟩
-          | ok m => exact ⟨rfl, rfl, rfl⟩
-      | none =>
-        simp only [hm] at h ⊢
-        cases ha : decodeApdu rest with
-        | error e => exact ⟨rfl, rfl, rfl⟩
-        | ok r2 =>
-          simp only [ha] at h
-          exact absurd rfl h
+    by_cases hsp : spoofed s.net hd = true
+    · simp [hsp]
+    · simp only [hsp, if_false] at h ⊢
+      by_cases hp : (!processLocally hd) = true
+      · simp [hp]
+      · simp only [hp, if_false] at h ⊢
+        cases hm : hd.netMessage with
+        | some c =>
+          simp only [hm] at h ⊢
+          cases hk : Npci.kindOfCode c with
+          | none => exact ⟨rfl, rfl⟩
+          | some kd =>
+            dsimp only
+            cases hb : Npci.decodeBody kd rest with
+            | error e => exact ⟨rfl, rfl⟩
+            | ok m => exact ⟨rfl, rfl⟩
+        | none =>
+          simp only [hm] at h
+          cases ha : decodeApdu rest with
+          | error e => simp only [ha] at h; cases h
+          | ok r2 => simp only [ha] at h; cases h
 
-theorem dropped_leaves_state {σ} (cfg : DevCfg σ) (s : DevState σ) (src f : Bytes)
-    (h : fate f ≠ .delivered) (h2 : fate f ≠ .netMsg) (hs : sadrOf f = none) :
-    recv cfg s src f = (s, []) := by
+/-- **dropped_leaves_state.**  … and without an SNET the WHOLE state is as it was. -/
+theorem dropped_leaves_state {σ} (cfg : DevCfg σ) (s : DevState σ) (src : Bytes) (bcast : Bool) (f : Bytes)
+    (h : fate s.net f ≠ .delivered) (h2 : fate s.net f ≠ .netMsg) (hs : sadrOf f = none) :
+    recv cfg s src bcast f = (s, []) := by
   unfold fate at h h2
   unfold sadrOf at hs
   unfold recv
@@ -249,7 +295,9 @@ theorem dropped_leaves_state {σ} (cfg : DevCfg σ) (s : DevState σ) (src f : B
     simp only [hn] at h h2 hs
     have hroutes : learnSadr s.routes src hd = s.routes := by simp [learnSadr, hs]
     have hs0 : ({ s with routes := s.routes } : DevState σ) = s := by cases s; rfl
+    have hsp : spoofed s.net hd = false := spoofed_noSadr _ _ hs
     dsimp only
+    simp only [hsp, Bool.false_eq_true, if_false] at h h2 ⊢
     rw [hroutes, hs0]
     by_cases hp : (!processLocally hd) = true
     · simp [hp]
@@ -275,41 +323,42 @@ theorem dropped_leaves_state {σ} (cfg : DevCfg σ) (s : DevState σ) (src f : B
 
 /-- **dropped_absent.**  A dropped datagram without SNET anywhere in the queue:
     every other datagram is processed exactly as if it were absent. -/
-theorem dropped_absent {σ} (cfg : DevCfg σ) (s : DevState σ) (xs ys : List (Bytes × Bytes))
-    (src f : Bytes) (h : fate f ≠ .delivered) (h2 : fate f ≠ .netMsg) (hs : sadrOf f = none) :
-    recvAll cfg s (xs ++ (src, f) :: ys) = recvAll cfg s (xs ++ ys) := by
+theorem dropped_absent {σ} (cfg : DevCfg σ) (s : DevState σ) (xs ys : List Dgram) (d : Dgram)
+    (h : fate (recvAll cfg s xs).1.net d.octets ≠ .delivered)
+    (h2 : fate (recvAll cfg s xs).1.net d.octets ≠ .netMsg) (hs : sadrOf d.octets = none) :
+    recvAll cfg s (xs ++ d :: ys) = recvAll cfg s (xs ++ ys) := by
   rw [recvAll_append, recvAll_append]
   simp only [recvAll]
-  rw [dropped_leaves_state cfg _ src f h h2 hs]
+  rw [dropped_leaves_state cfg _ d.src d.bcast d.octets h h2 hs]
   simp
 
 /-- **queued_request_answered.**  A well-framed request queued behind ANY
     datagrams: its own processing step yields exactly one reply (the outputs of
     the whole queue are those of the prefix, then that reply, then those of the rest). -/
 theorem queued_request_answered {σ} (cfg : DevCfg σ) (hw : cfg.base.window < 256)
-    (s : DevState σ) (xs ys : List (Bytes × Bytes)) (src f : Bytes) (inv : Nat)
+    (s : DevState σ) (xs ys : List Dgram) (src : Bytes) (bcast : Bool) (f : Bytes) (inv : Nat)
     (hwf : wellFramed f = some inv)
     (hdcc : listening (recvAll cfg s xs).1.sap.dcc f)
     (hfree : findTxn ⟨peerOf (.localStation src), inv⟩ (recvAll cfg s xs).1.sap.servers = none) :
     ∃ s1 reply, ExactlyOneReply (recvAll cfg s xs).1 s1 src inv reply ∧
-      (recvAll cfg s (xs ++ (src, f) :: ys)).2 =
+      (recvAll cfg s (xs ++ ⟨src, bcast, f⟩ :: ys)).2 =
         (recvAll cfg s xs).2 ++ reply ++ (recvAll cfg s1 ys).2 := by
-  refine ⟨(recv cfg (recvAll cfg s xs).1 src f).1, (recv cfg (recvAll cfg s xs).1 src f).2,
-    reply_exists cfg hw _ src f inv hwf hdcc hfree, ?_⟩
+  refine ⟨(recv cfg (recvAll cfg s xs).1 src bcast f).1, (recv cfg (recvAll cfg s xs).1 src bcast f).2,
+    reply_exists cfg hw _ src bcast f inv hwf hdcc hfree, ?_⟩
   rw [recvAll_append]
   simp [recvAll, List.append_assoc]
 
 /-- **answered_after_garbage.**  After ANY datagrams and quiescence, every
     well-framed request the DCC gate lets in gets exactly one reply. -/
 theorem answered_after_garbage {σ} (cfg : DevCfg σ) (hpos : cfg.base.TimeoutsPos)
-    (hw : cfg.base.window < 256) (s0 : DevState σ) (hg : Good s0) (garbage : List (Bytes × Bytes))
-    (src f : Bytes) (inv : Nat) (hwf : wellFramed f = some inv)
+    (hw : cfg.base.window < 256) (s0 : DevState σ) (hg : Good s0) (garbage : List Dgram)
+    (src : Bytes) (bcast : Bool) (f : Bytes) (inv : Nat) (hwf : wellFramed f = some inv)
     (hdcc : listening (quiesce cfg (recvAll cfg s0 garbage).1).1.sap.dcc f) :
     ExactlyOneReply (quiesce cfg (recvAll cfg s0 garbage).1).1
-      (recv cfg (quiesce cfg (recvAll cfg s0 garbage).1).1 src f).1 src inv
-      (recv cfg (quiesce cfg (recvAll cfg s0 garbage).1).1 src f).2 := by
+      (recv cfg (quiesce cfg (recvAll cfg s0 garbage).1).1 src bcast f).1 src inv
+      (recv cfg (quiesce cfg (recvAll cfg s0 garbage).1).1 src bcast f).2 := by
   have h := (garbage_leaves_nothing cfg hpos s0 hg garbage).1
-  exact reply_exists cfg hw _ src f inv hwf hdcc (by rw [h]; rfl)
+  exact reply_exists cfg hw _ src bcast f inv hwf hdcc (by rw [h]; rfl)
 
 /-! ## obligations against the regenerated tables -/
 
@@ -351,40 +400,52 @@ example : exCfg.base.TimeoutsPos ∧ exCfg.base.window < 256 := ⟨⟨by decide,
 example : Good ex0 := good_init ()
 
 /-- the valid request: complex ack with invoke ID 1 -/
-example : (recv exCfg ex0 [0x0a] rp).2 =
+example : (recv exCfg ex0 [0x0a] false rp).2 =
     [⟨some [0x0a], [0x01, 0x00, 0x30, 0x01, 0x0c, 0x0c, 0x00, 0x80, 0x00, 0x01, 0x19, 0x55, 0x3e, 0x44, 0x41, 0x48, 0x00, 0x00, 0x3f]⟩] := by
   decide +kernel
 
 /-- its last octet cut off: the ASAP rejects with invalidTag (4), same invoke ID -/
-example : (recv exCfg ex0 [0x0a] rp.dropLast).2 = [⟨some [0x0a], [0x01, 0x00, 0x60, 0x01, 0x04]⟩] := by
+example : (recv exCfg ex0 [0x0a] false rp.dropLast).2 = [⟨some [0x0a], [0x01, 0x00, 0x60, 0x01, 0x04]⟩] := by
   decide +kernel
 
 /-- service choice 99 (no such service): reject unrecognizedService (9) -/
-example : (recv exCfg ex0 [0x0a] [0x01, 0x04, 0x02, 0x05, 0x07, 0x63, 0xff, 0xff]).2 =
+example : (recv exCfg ex0 [0x0a] false [0x01, 0x04, 0x02, 0x05, 0x07, 0x63, 0xff, 0xff]).2 =
     [⟨some [0x0a], [0x01, 0x00, 0x60, 0x07, 0x09]⟩] := by decide +kernel
 
 /-- reserved max-APDU code 15: abort (other) from the server, nothing left behind -/
-example : (recv exCfg ex0 [0x0a] [0x01, 0x04, 0x02, 0x0f, 0x09, 0x0c]).2 =
+example : (recv exCfg ex0 [0x0a] false [0x01, 0x04, 0x02, 0x0f, 0x09, 0x0c]).2 =
       [⟨some [0x0a], [0x01, 0x00, 0x71, 0x09, 0x00]⟩] ∧
-    (recv exCfg ex0 [0x0a] [0x01, 0x04, 0x02, 0x0f, 0x09, 0x0c]).1.sap.servers = [] := by decide +kernel
+    (recv exCfg ex0 [0x0a] false [0x01, 0x04, 0x02, 0x0f, 0x09, 0x0c]).1.sap.servers = [] := by decide +kernel
 
-/-- 50-octet limit with segmented-response-accepted clear and a 14-octet answer: fits;
-    with the answer too long for the client the reply is an abort (tested in the harness) -/
 example : (replyHdr [0x01, 0x00, 0x3c, 0x09, 0x00, 0x02, 0x0e, 0x0c]) = some ⟨3, 9, true, 14⟩ := by decide
 
 /-- garbage that DOES leave something until the timers run: the first segment of a
     segmented request opens a transaction (and is acknowledged) … -/
 def seg0 : Bytes := [0x01, 0x04, 0x0e, 0x05, 0x2b, 0x00, 0x02, 0x0f, 0x0c, 0x00, 0x80, 0x00, 0x01]
 
-example : (recvAll exCfg ex0 [([0x0a], seg0), ([0x0a], [0xff]), ([0x0b], [0x01, 0x80])]).1.sap.servers.length = 1 := by
+def exGarbage : List Dgram :=
+  [⟨[0x0a], false, seg0⟩, ⟨[0x0a], false, [0xff]⟩, ⟨[0x0b], false, [0x01, 0x80]⟩,
+   ⟨[0x0b], true, [0x01, 0x80, 0x13, 0x00, 0x05, 0x00]⟩, ⟨[0x0c], true, [0x01, 0x80, 0x12]⟩]
+
+example : (recvAll exCfg ex0 exGarbage).1.sap.servers.length = 1 ∧
+    (recvAll exCfg ex0 exGarbage).1.net = some 5 ∧ (recvAll exCfg ex0 exGarbage).1.nniPending = true := by
   decide +kernel
-/-- … and quiescence removes it -/
-example : (quiesce exCfg (recvAll exCfg ex0 [([0x0a], seg0), ([0x0a], [0xff]), ([0x0b], [0x01, 0x80])]).1).1.sap.servers = [] := by
+/-- … and quiescence removes it (and the pending Network-Number-Is answer is given) -/
+example : (quiesce exCfg (recvAll exCfg ex0 exGarbage).1).1.sap.servers = [] ∧
+    (quiesce exCfg (recvAll exCfg ex0 exGarbage).1).2 = [⟨none, [0x01, 0x80, 0x13, 0x00, 0x05, 0x00]⟩] := by
+  decide +kernel
+
+/-- once the LAN's number is known, a request claiming to come from that very network is a path
+    error, one from another network is answered through the station that delivered it -/
+example :
+    let s := (recvAll exCfg ex0 [⟨[0x0b], true, [0x01, 0x80, 0x13, 0x00, 0x05, 0x00]⟩]).1
+    fate s.net ([0x01, 0x0c, 0x00, 0x05, 0x01, 0x07] ++ rp.drop 2) = .spoofed ∧
+    (recv exCfg s [0x0c] false ([0x01, 0x0c, 0x00, 0x06, 0x01, 0x07] ++ rp.drop 2)).2.map (·.dst) = [some [0x0c]] := by
   decide +kernel
 
 /-- fates of malformed datagrams -/
-example : fate [0xff] = .badNpci ∧ fate [0x01, 0x00, 0x00, 0x05] = .badApci ∧
-    fate [0x01, 0x20, 0x00, 0x07, 0x00, 0xff, 0x00] = .notForUs ∧ fate [0x01, 0x80, 0x7f] = .unknownMsg ∧
-    fate [0x01, 0x80, 0x02, 0x00] = .badMsg ∧ fate rp = .delivered := by decide
+example : fate none [0xff] = .badNpci ∧ fate none [0x01, 0x00, 0x00, 0x05] = .badApci ∧
+    fate none [0x01, 0x20, 0x00, 0x07, 0x00, 0xff, 0x00] = .notForUs ∧ fate none [0x01, 0x80, 0x7f] = .unknownMsg ∧
+    fate none [0x01, 0x80, 0x02, 0x00] = .badMsg ∧ fate none rp = .delivered := by decide
 
 end BacVerif.C10
